@@ -1,0 +1,65 @@
+//go:build verif
+
+package search
+
+import "fmt"
+
+// VerifValidate checks that the token list and every per-token list is a
+// valid AVL tree: strict ordering, parent links, and balance factors equal
+// to the height difference of the subtrees. Verification hook, only built
+// with -tags verif.
+func (t *TreeIndex) VerifValidate() error {
+	if err := verifValidateList(t.lists); err != nil {
+		return fmt.Errorf("token list: %w", err)
+	}
+	i := t.lists.Begin()
+	for i.Next() {
+		entry := i.Value().(treeIndexEntry)
+		if err := verifValidateList(entry.list); err != nil {
+			return fmt.Errorf("list for token %q: %w", entry.token, err)
+		}
+	}
+	return nil
+}
+
+func verifValidateList(t *treeList) error {
+	_, err := verifValidateNode(t, t.root, nil, nil, nil)
+	return err
+}
+
+// verifValidateNode returns the height of the subtree rooted at node.
+func verifValidateNode(t *treeList, node *treeNode, parent *treeNode, min *treeNode, max *treeNode) (int, error) {
+	if node == nil {
+		return 0, nil
+	}
+	if node.parent != parent {
+		return 0, fmt.Errorf("broken parent link at %v", t.values.Key(node.v))
+	}
+	if node.isDeleted() {
+		return 0, fmt.Errorf("deleted node %v reachable from the root", t.values.Key(node.v))
+	}
+	if min != nil && t.values.Compare(min.v, node.v) != ComparisonLess {
+		return 0, fmt.Errorf("ordering broken: %v not less than %v", t.values.Key(min.v), t.values.Key(node.v))
+	}
+	if max != nil && t.values.Compare(node.v, max.v) != ComparisonLess {
+		return 0, fmt.Errorf("ordering broken: %v not less than %v", t.values.Key(node.v), t.values.Key(max.v))
+	}
+	l, err := verifValidateNode(t, node.left, node, min, node)
+	if err != nil {
+		return 0, err
+	}
+	r, err := verifValidateNode(t, node.right, node, node, max)
+	if err != nil {
+		return 0, err
+	}
+	if int(node.balance) != r-l {
+		return 0, fmt.Errorf("balance %d at %v, but subtree heights are left %d right %d", node.balance, t.values.Key(node.v), l, r)
+	}
+	if r-l > 1 || r-l < -1 {
+		return 0, fmt.Errorf("unbalanced at %v: subtree heights left %d right %d", t.values.Key(node.v), l, r)
+	}
+	if l > r {
+		return l + 1, nil
+	}
+	return r + 1, nil
+}
